@@ -776,11 +776,14 @@ class Grammar(Serialize):
                 else:
                     exp_options = options
 
-                for sym in expansion:
+                for j, sym in enumerate(expansion):
                     assert isinstance(sym, Symbol)
                     if sym.is_term and exp_options and exp_options.keep_all_tokens:
                         assert isinstance(sym, Terminal)
-                        sym.filter_out = False
+                        if sym.filter_out:
+                            # The symbol object may also occur in other rules (a template argument is
+                            # substituted as the same object everywhere), so don't change it in place
+                            expansion[j] = Terminal(sym.name, filter_out=False)
                 rule = Rule(NonTerminal(name), expansion, i, alias, exp_options)
                 compiled_rules.append(rule)
 
